@@ -85,6 +85,37 @@ Theorem T18_1_redirect_refuted : exists f F std g c mi n,
 Proof. exact redirect_refuted. Qed.
 Print Assumptions T18_1_redirect_refuted.
 
+(* ---- T18.1c the agreement guards follow from STRUCTURAL conditions: acyclic graph (topo_ok), no un-aliased
+   dotted import in any module (no_dotted), every from-import finds its name (froms_found).  Then the tool's
+   "module m provides n" (trace_origin) and Python's star-import semantics coincide for all modules and names,
+   and both rewrites preserve resolve under boolean guards only. *)
+Theorem T18_1_tool_agrees_with_python : forall g,
+  topo_ok g = true -> no_dotted g = true -> froms_found (S (length g)) g = true ->
+  forall m n, star_ok g m n && t_has (length g) g m n = py_has (length g) g m n.
+Proof. exact tool_agrees_with_python. Qed.
+Print Assumptions T18_1_tool_agrees_with_python.
+
+Theorem T18_1_star_expansion_structural : forall g c mi used n,
+  topo_ok g = true -> no_dotted g = true -> froms_found (S (length g)) g = true ->
+  find_mod g c = Some mi ->
+  client_leaf g c = true ->
+  In n used ->
+  resolve (S (length g)) (update_mod g c (set_body mi (fix_starred (length g) g (body mi) used))) c n =
+  resolve (S (length g)) g c n.
+Proof. exact star_expansion_structural. Qed.
+Print Assumptions T18_1_star_expansion_structural.
+
+Theorem T18_1_redirect_structural : forall std g c mi n,
+  topo_ok g = true -> no_dotted g = true -> froms_found (S (length g)) g = true ->
+  find_mod g c = Some mi ->
+  client_leaf g c = true ->
+  has_star (body mi) = false ->
+  count_binders n (body mi) <= 1 ->
+  resolve (S (S (length g))) (update_mod g c (set_body mi (fix_reimported (length g) std g (body mi)))) c n =
+  resolve (S (S (length g))) g c n.
+Proof. exact redirect_structural. Qed.
+Print Assumptions T18_1_redirect_structural.
+
 (* ---- T18.2 the binding environment (local name -> target, last binding wins) of a list of import
    statements.  Key fact: when all bindings of one local name have the same target (coherent), the
    environment depends only on the SET of bindings. *)
@@ -171,3 +202,8 @@ Example T18_example_coherent :
   sort_aliases coherent_example <> coherent_example /\
   remove_unused [2; 12] coherent_example <> coherent_example.
 Proof. exact coherent_example_ok. Qed.
+
+Example T18_example_structural :
+  topo_ok ex_graph = true /\ no_dotted ex_graph = true /\ froms_found (S (length ex_graph)) ex_graph = true /\
+  topo_ok ex_graph2 = true /\ no_dotted ex_graph2 = true /\ froms_found (S (length ex_graph2)) ex_graph2 = true.
+Proof. exact structural_example. Qed.
